@@ -223,3 +223,37 @@ Proof. exact plain_ttx_to_srt. Qed.
 Print Assumptions C07_ttx_to_srt.
 Example C07_ttx_plain_example : ttx_plain_ok ex_plain_ttx /\ srt_plain_ok (ptrunc 1000000 ex_plain_ttx) /\ length ex_plain_ttx = 3%nat.
 Proof. split; [exact ex_plain_ttx_ok | split; [exact ex_plain_ttx_srt_ok | reflexivity]]. Qed.
+
+(* ---- styled conversions into EBU STL (Model/ConvStl.v, Proofs/ConvStlProofs.v).  conv_S_stl = what WriteToSTL sees of a cue
+   list the S reader produced: no reader sets an STL attribute, so the times and, per line, the texts of the line items
+   (joined by the writer with a blank), plus of the metadata the title (SSA script info, TTML), the frame rate and the
+   mapped language (TTML).  For every S result whose conversion is representable (stl_conv_ok: stl_plain_ok of the cues
+   with the runs of each line joined by a blank - repertoire, no white space at the ends, 112 bytes, times below 100 h -,
+   the metadata that travels fits the GSI block, and the frame rate is not 30: a 30 fps file has another unit and is
+   covered by C05_write_read_teletext): the conversion succeeds, the STL file read back has the same cues in the same order,
+   times truncated to the 40 ms frame, and per line the same text ONCE BLANKS ARE DISREGARDED (plain_nows / stl_nows: the
+   writer's blank between two runs is the only difference; the read-back itself is given exactly by
+   C07_conversion_into_stl). *)
+From Astisub Require Import Model.Ssa Model.PlainSsa Model.Ttml Model.PlainTtml Model.ConvStl Proofs.ConvStlProofs.
+Theorem C07_conversion_into_stl : forall md rv, stl_conv_ok md (rv_joined rv) ->
+  exists dst, write_conv_stl (md, stl_of_runs rv) = Ok dst /\
+              stl_dec dst = Ok (ptrunc 40000000 (rv_joined rv)) /\
+              plain_nows (ptrunc 40000000 (rv_joined rv)) = plain_nows (ptrunc 40000000 (rv_concat rv)).
+Proof. exact conversion_into_stl. Qed.
+Theorem C07_srt_to_stl_styled : forall l, stl_conv_ok None (rv_joined (srt_runs l)) -> styled_into_stl (conv_srt_stl l) (srt_to_plain l).
+Proof. exact srt_to_stl_styled. Qed.
+Theorem C07_vtt_to_stl_styled : forall d, stl_conv_ok (fst (conv_vtt_stl d)) (rv_joined (vtt_runs d)) -> styled_into_stl (conv_vtt_stl d) (vtt_to_plain d).
+Proof. exact vtt_to_stl_styled. Qed.
+Theorem C07_ssa_to_stl_styled : forall d, stl_conv_ok (fst (conv_ssa_stl d)) (rv_joined (ssa_runs d)) -> styled_into_stl (conv_ssa_stl d) (ssa_to_plain d).
+Proof. exact ssa_to_stl_styled. Qed.
+Theorem C07_ttml_to_stl_styled : forall d, stl_conv_ok (fst (conv_ttml_stl d)) (rv_joined (ttml_runs d)) -> styled_into_stl (conv_ttml_stl d) (ttml_to_plain d).
+Proof. exact ttml_to_stl_styled. Qed.
+(* a TTML cue list with title, language and frame rate 25, two runs in a line, a time off the grid: converted, 1280 bytes,
+   title and language code in the GSI block, read back "Hello world" for the runs "Hello" "world" *)
+Example C07_into_stl_styled_example : stl_conv_ok (fst (conv_ttml_stl ex_tdoc)) (rv_joined (ttml_runs ex_tdoc)).
+Proof. exact ex_tdoc_ok. Qed.
+Print Assumptions C07_conversion_into_stl.
+Print Assumptions C07_srt_to_stl_styled.
+Print Assumptions C07_vtt_to_stl_styled.
+Print Assumptions C07_ssa_to_stl_styled.
+Print Assumptions C07_ttml_to_stl_styled.
